@@ -9,7 +9,7 @@ import auxval
 import gtirb_from_repo
 from auxval import canon, to_sx, type_str
 from codec_cases import expected_after_roundtrip, features, gen_cases, impl_decode, impl_encode
-from common import exc_name, model_batch, model_result, zs
+from common import ImplTimeout, exc_name, model_batch, model_result, time_limit, zs
 
 LEVEL = "proof"
 TRUSTED = (
@@ -20,6 +20,21 @@ TRUSTED = (
     "checked by correspondence only",
 )
 SENT = 0x0123456789ABCDEF
+
+
+def read_table(ad):
+    """AuxData.data under the time limit of the codec calls (a misaligned stream can make a decoder loop over a count of 2^60);
+    after six timeouts of a run the remaining reads are not attempted"""
+    import codec_cases as _cc
+    if _cc.HANGS["n"] >= 6:
+        raise ImplTimeout()
+    try:
+        with time_limit(5):
+            return ad.data
+    except ImplTimeout:
+        _cc.HANGS["n"] += 1
+        raise
+
 
 
 def run(ctx):
@@ -178,7 +193,7 @@ def through_loaded_tables(ctx, g, cases, env0):
                 t = g.IR.load_protobuf_file(io.BytesIO(buf.getvalue())).modules[0].aux_data["t"]
                 if retype_first:
                     t.type_name = tn2
-                got = t.data
+                got = read_table(t)
                 if not retype_first:
                     t.type_name = tn2
                 ir2 = g.IR()
@@ -187,7 +202,7 @@ def through_loaded_tables(ctx, g, cases, env0):
                 buf2 = io.BytesIO()
                 ir2.save_protobuf_file(buf2)
                 t3 = g.IR.load_protobuf_file(io.BytesIO(buf2.getvalue())).modules[0].aux_data["t"]
-                got3, tn3 = t3.data, t3.type_name
+                got3, tn3 = read_table(t3), t3.type_name
             except Exception as e:  # noqa: BLE001
                 ctx.add("oracle", "roundtrip", "a %s table saved, loaded, %s: %s" % (tn, "retyped to %s and then read" % tn2 if retype_first else "read and then retyped to %s" % tn2, exc_name(g, e)),
                         {"type_name": tn, "new_type_name": tn2, "retype_first": retype_first})
@@ -218,7 +233,7 @@ def through_loaded_tables(ctx, g, cases, env0):
             elif route.startswith("pickle"):
                 import pickle
                 ir2 = pickle.loads(pickle.dumps(ir2))
-            got = ir2.aux_data[key].data
+            got = read_table(ir2.aux_data[key])
         except Exception as e:  # noqa: BLE001
             ctx.count("loaded_table_route_skipped:" + exc_name(g, e))
             continue
@@ -414,7 +429,7 @@ def cross_module_tables(ctx, g, rng, n):
             ctx.case("table:%d:%s:%s" % (rd, ci, k), True)
             ctx.count("cross_module_tables")
             try:
-                got = conts2[ci].aux_data[k].data
+                got = read_table(conts2[ci].aux_data[k])
             except Exception as e:  # noqa: BLE001
                 ctx.add("oracle", "tables:read-raised", "reading table %s of container %d after load raised %s" % (tn, ci, exc_name(g, e)), {"type_name": tn})
                 continue
